@@ -94,21 +94,24 @@ static const hx_op *const tables[] = { ops_c14, ops_c16, ops_c15, ops_c03, ops_c
 
 /* run one op line (modified in place by strtok) and print exactly one line to `o` */
 void hx_dispatch(char *line, FILE *o) {
-    char *argv[64]; int argc = 0, handled = 0; char *save, *tok; size_t t;
+    char **argv = NULL; size_t argcap = 0; int argc = 0, handled = 0; char *save, *tok; size_t t;
     size_t n = strlen(line);
     while (n > 0 && (line[n - 1] == '\n' || line[n - 1] == '\r')) line[--n] = 0;
-    for (tok = strtok_r(line, " ", &save); tok && argc < 63; tok = strtok_r(NULL, " ", &save)) argv[argc++] = tok;
-    if (argc == 0) { fputs("empty\n", o); return; }
+    for (tok = strtok_r(line, " ", &save); tok; tok = strtok_r(NULL, " ", &save)) {
+        if ((size_t) argc + 1 >= argcap) { argcap = argcap ? argcap * 2 : 16; argv = (char **) realloc(argv, argcap * sizeof *argv); }
+        argv[argc++] = tok;
+    }
+    if (argc == 0) { fputs("empty\n", o); free(argv); return; }
     if (strcmp(argv[0], "rt.flags") == 0) {
         fprintf(o, "sse2=%d sse3=%d ssse3=%d sse41=%d avx=%d avx2=%d avx512f=%d pclmul=%d aesni=%d rdrand=%d gcm=%d\n",
                sodium_runtime_has_sse2(), sodium_runtime_has_sse3(), sodium_runtime_has_ssse3(), sodium_runtime_has_sse41(),
                sodium_runtime_has_avx(), sodium_runtime_has_avx2(), sodium_runtime_has_avx512f(), sodium_runtime_has_pclmul(),
                sodium_runtime_has_aesni(), sodium_runtime_has_rdrand(), crypto_aead_aes256gcm_is_available());
-        return;
+        free(argv); return;
     }
     if (strncmp(argv[0], "aead.", 5) == 0) {
         int r = hx_aead(argv[0], argc - 1, argv + 1, o);
-        if (r <= 0) { if (r < 0) fputs("bad-args", o); fputc('\n', o); return; }
+        if (r <= 0) { if (r < 0) fputs("bad-args", o); fputc('\n', o); free(argv); return; }
     }
     for (t = 0; tables[t] && !handled; t++) {
         const hx_op *op;
@@ -121,6 +124,7 @@ void hx_dispatch(char *line, FILE *o) {
         }
     }
     if (!handled) fputs("bad-op\n", o);
+    free(argv);
 }
 
 #ifndef HX_NO_MAIN
